@@ -1174,6 +1174,10 @@ class MetaModel(object):
 
         metaclass = MetaClass(kind, self)
         for name, ty in attributes:
+            if metaclass.attribute_type(name) is not None:
+                raise MetaModelException('The attribute %s is defined twice '\
+                                         'in the class %s' % (name, kind))
+
             metaclass.append_attribute(name, ty)
             
         self.metaclasses[ukind] = metaclass
